@@ -4,19 +4,22 @@ PROP = {'engine': 'wc',
  'lean_props': ['MuscleModel.Props.C15'],
  'harnesses': [{'name': 'wc', 'sources': ['harness/wc.cpp']}],
  'trusted_base': ['hand-written Lean model of StringMatcher::SetPattern/Match/ToString, EscapeRegexTokens, RemoveEscapeChars, '
-                  'CanWildcardStringMatchMultipleValues, HasRegexTokens, IsRegexToken (lean/MuscleModel/Wildcard/Code.lean)',
+                  'CanWildcardStringMatchMultipleValues, HasRegexTokens (lean/MuscleModel/Wildcard/Code.lean); the IsRegexToken table (by calling the compiled '
+                  'function, tools/extract_consts.cpp) and the list of characters SetPattern keeps a backslash in front of (parsed from the source text, '
+                  'tools/extract_kernels.py) are regenerated from /repo on every run and every fact the proofs use about them is re-derived from the generated '
+                  'tables (Wildcard/Tables.lean)',
                   'the specification: Pat.Matches / Top.denote / rangeDenote and Ere.Matches (lean/MuscleModel/Wildcard/Syntax.lean, Ere.lean), read by a '
                   'human against the documentation',
                   'glibc regcomp/regexec implement POSIX ERE matching on the expressions SetPattern can emit for documented patterns (hypothesis GlibcOK of '
                   'match_spec; validated differentially on every generated pattern)',
-                  'the pattern parser of the model driver is not verified; the driver only predicts when the parsed tree is WF and renders back to exactly the '
-                  'pattern text'],
+                  'the pattern parser of the model driver is proved sound (parseTop_sound: its result renders back to the input and is well-formed), not '
+                  'complete: a wrongly rejected pattern costs a `?`, never a wrong prediction'],
  'assumptions': ['patterns and subjects are NUL-free C strings',
                  'C locale (bytes are characters)',
                  'documented grammar: unescaped literals are plain characters, classes are non-empty and free of ] [ ^ - \\ , . + * ? as members, first '
                  'character of the body is not an unescaped ~ ` <',
                  'range_spec_documented: the subject is a canonical decimal below 2^32 (finding F9 outside)',
-                 'escape_exact: the string does not start with a backtick (finding tick)'],
+                 'class_translation_iff: the translation of a class is the class itself iff no member is one of , . + * ? (finding class outside)'],
  'rule': 'patterns printed from random ASTs of the documented grammar over {a,b,0,1} + every metacharacter, each matched against every string of length <= 3 '
          '(thorough: 4) over a per-pattern alphabet, against members of its language and their one-edit neighbours; range lists with boundary subjects; a '
          'malformed stream (must not crash; flags/ToString/uniqueness still compared); EscapeRegexTokens on every string of length <= 3 (thorough: 4) over '
@@ -35,6 +38,7 @@ TEXT = {'design_ref': 'DESIGN.md section 4, C15',
          'what Match does on other subjects (finding F9) is characterised exactly.  The model is tied to the C++ code by running both on generated patterns x '
          'subjects (Match, flags, ToString, escape functions must agree) and by a direct oracle on the real code.',
  'note': 'glibc regcomp/regexec are trusted to implement POSIX ERE on the emitted expressions (explicit hypothesis GlibcOK, validated differentially).  Known '
-         'deviations kept as corpus triggers and reported by the direct oracle: F9 (range subjects parsed by numeric prefix), tick (leading backtick not '
-         "escaped), class (translation is not class-aware).  The driver's pattern parser is unverified; predictions are made only for trees that render back "
-         'to the pattern text.'}
+         'deviations kept as corpus triggers and reported by the direct oracle: F9 (range subjects parsed by numeric prefix), class (translation is not '
+         'class-aware; class_translation_iff states exactly when it is harmless).  Former finding tick (leading backtick not escaped) is fixed in /repo; its '
+         "trigger is a regression case.  The IsRegexToken table and SetPattern's backslash-keeping list are regenerated from /repo on every run.  The driver's "
+         'pattern parser is proved sound (not complete).'}
